@@ -478,6 +478,149 @@ def _job(job):
         shutil.rmtree(tmp, ignore_errors=True)
 
 
+# ---------------------------------------------------------------------------------------------------------------
+# wave 3: HISTORIES on one handle.  A file is also "produced by a write" when it is the result of several operations
+# through one ParquetFile object, some of which failed: after EVERY step the file must be valid and decode to the rows
+# of the operations that succeeded so far (state kept on the handle by a failed operation must not leak into the next
+# footer).  history = {"spec": frame spec of the initial write, "opts": write options (file_scheme simple),
+#                      "steps": [{"via": "handle" | "fresh", "frames": [rows, ...], "seeds": [...], "offsets": None | int,
+#                                 "fail": None | {"kind": "iter" | "cell", "at": index of the frame that fails}}]}
+
+HIST_KINDS = ["int64", "float64", "str", "bool", "dt_ns", "Int32", "bytes", "dttz_ns", "int8", "td_us"]
+
+
+class _PlannedFailure(Exception):
+    pass
+
+
+def _hist_frame(spec, n, seed):
+    sp = {"n": n, "index": None, "cols": [dict(c, seed=(c["seed"] * 31 + seed) % (1 << 30)) for c in spec["cols"]]}
+    return F.build(sp)
+
+
+def _hist_job(h):
+    """-> dict(outcome, problems=[(stage, text)], at_step, after_failure, steps_done, files)"""
+    import fastparquet
+    import pandas as pd
+    from fastparquet import writer
+    from harness import rt
+    spec, o = h["spec"], h["opts"]
+    tmp = tempfile.mkdtemp(prefix="verif-C02h-", dir=_SCRATCH)
+    out = {"outcome": "ok", "problems": [], "at_step": None, "after_failure": False, "steps_done": 0, "files": 0, "lenient": 0,
+           "failed_steps": 0}
+    old = writer.MAX_PAGE_SIZE, writer.DATAPAGE_VERSION
+    try:
+        path = os.path.join(tmp, "h.parquet")
+        df = F.build(spec)
+        try:
+            rt.write_frame(df, path, spec, o)
+        except Exception as e:     # noqa
+            return dict(out, outcome="write-raised", err="%s: %s" % (type(e).__name__, str(e)[:200]))
+        expected = df.reset_index(drop=True)
+        pf = fastparquet.ParquetFile(path)
+        if o["page_size"]:
+            writer.MAX_PAGE_SIZE = o["page_size"]
+        writer.DATAPAGE_VERSION = o["dpv"]
+        any_failed = False
+        for si, st in enumerate([None] + h["steps"]):
+            if st is not None:
+                frames = [_hist_frame(spec, n, sd) for n, sd in zip(st["frames"], st["seeds"])]
+                fail = st.get("fail")
+                if fail and fail["kind"] == "cell":
+                    col = fail["col"]
+                    bad = frames[fail["at"]]
+                    bad[col] = bad[col].astype(object)
+                    bad.iloc[min(fail.get("row", 0), len(bad) - 1), list(bad.columns).index(col)] = b"\xff\xfe"
+
+                def data_iter():
+                    for i, f in enumerate(frames):
+                        if fail and fail["kind"] == "iter" and i == fail["at"]:
+                            raise _PlannedFailure("the producer of the frames failed")
+                        yield f
+                raised = None
+                try:
+                    if st["via"] == "handle":
+                        data = data_iter() if (len(frames) > 1 or fail) else frames[0]
+                        pf.write_row_groups(data, row_group_offsets=st.get("offsets"), compression=o["compression"], stats=o["stats"])
+                    else:
+                        fastparquet.write(path, pd.concat(frames, ignore_index=True) if len(frames) > 1 else frames[0], append=True,
+                                          compression=o["compression"], stats=o["stats"],
+                                          **({"row_group_offsets": st["offsets"]} if st.get("offsets") else {}))
+                        pf = fastparquet.ParquetFile(path)
+                except Exception as e:     # noqa: a step that raises must leave the file as it was
+                    raised = e
+                if raised is None:
+                    expected = pd.concat([expected] + frames, ignore_index=True)
+                else:
+                    any_failed = True
+                    out["failed_steps"] += 1
+                out["steps_done"] = si
+            res = check_dataset(path, expected, spec, dict(o, write_index=False), _fmt())
+            out["files"] += res["files"]
+            out["lenient"] += res["lenient"]
+            if res["problems"]:
+                out.update(outcome="fails", problems=res["problems"], at_step=si, after_failure=any_failed)
+                return out
+        return out
+    except Exception:     # noqa
+        import traceback
+        return dict(out, outcome="harness-error", err=traceback.format_exc()[-1500:])
+    finally:
+        writer.MAX_PAGE_SIZE, writer.DATAPAGE_VERSION = old
+        shutil.rmtree(tmp, ignore_errors=True)
+
+
+def gen_histories(ctx):
+    from harness import rt
+    rng = ctx.rng
+    hs = []
+    for i in range(40 if ctx.quick() else 400):
+        ncols = rng.choice([1, 2, 3])
+        kinds = [rng.choice(HIST_KINDS) for _ in range(ncols)]
+        if i % 2 == 0 and "str" not in kinds:
+            kinds[0] = "str"
+        spec = F.gen_spec(rng, n=rng.choice([1, 2, 5, 9, 64, 65]), ncols=0, index=False)
+        spec["cols"] = [{"name": "c%d_%s" % (j, k), "kind": k, "nulls": rng.choice(["none", "some", "some", "last"]),
+                         "seed": rng.randrange(1 << 30), **({"tz": rng.choice(ZONES)} if k.startswith("dttz") else {})}
+                        for j, k in enumerate(kinds)]
+        o = rt.gen_opts(rng, spec)
+        o.update(file_scheme="simple", write_index=False, has_nulls=rng.choice([True, True, [c["name"] for c in spec["cols"]]]),
+                 object_encoding="infer")
+        if isinstance(o["row_group_offsets"], list):
+            o["row_group_offsets"] = None
+        steps = []
+        nsteps = rng.choice([2, 3, 4])
+        fail_step = rng.randrange(nsteps - 1) if i % 4 != 3 else None         # three of four histories contain a failing step
+        for k in range(nsteps):
+            nfr = rng.choice([1, 2, 3])
+            st = {"via": "handle", "frames": [rng.choice([1, 3, 8, 9, 17]) for _ in range(nfr)],
+                  "seeds": [rng.randrange(1 << 30) for _ in range(nfr)], "offsets": None, "fail": None}
+            if k == fail_step:
+                nfr = rng.choice([2, 3])
+                st["frames"] = [rng.choice([1, 3, 8, 9]) for _ in range(nfr)]
+                st["seeds"] = [rng.randrange(1 << 30) for _ in range(nfr)]
+                at = rng.randrange(0, nfr)
+                strs = [c["name"] for c in spec["cols"] if c["kind"] == "str"]
+                if strs and rng.random() < 0.5:
+                    st["fail"] = {"kind": "cell", "at": at, "col": rng.choice(strs), "row": rng.randrange(0, 9)}
+                else:
+                    st["fail"] = {"kind": "iter", "at": at}
+            elif rng.random() < 0.2:
+                st["via"] = "fresh"
+                st["offsets"] = rng.choice([None, 2, 5])
+            elif nfr == 1 and rng.random() < 0.4:
+                st["offsets"] = rng.choice([2, 5])
+            steps.append(st)
+        hs.append({"spec": spec, "opts": o, "steps": steps})
+    return hs
+
+
+def _any_job(job):
+    if isinstance(job, dict) and "steps" in job:
+        return _hist_job(job)
+    return _job(job)
+
+
 ZONES = ["UTC", "Europe/Berlin", "Asia/Kolkata", "America/New_York"]
 
 
@@ -595,7 +738,10 @@ def run(ctx):
                 "file_scheme simple/hive/drill incl. _metadata/_common_metadata, partition_on a key column with 1..3 values, write_index); every written file -> pqref fmt_validate "
                 "+ fmt_decode; trivial = the write raised (allowed outcome); distinct = distinct (spec, options)")
     jobs = gen_jobs(ctx)
-    results = C.pmap(_job, jobs, init=_init, nproc=min(8, os.cpu_count() or 4), job_timeout=300)
+    hists = gen_histories(ctx)
+    allres = C.pmap(_any_job, jobs + hists, init=_init, nproc=min(8, os.cpu_count() or 4), job_timeout=300)
+    results, hres = allres[:len(jobs)], allres[len(jobs):]
+    run_histories(ctx, hists, hres)
     files = lenient = 0
     decomp = {}
     wm = {"compared": 0, "differ": 0, "first": None}
@@ -667,12 +813,57 @@ def run(ctx):
         ctx.notes.append("writer chunk model (information only): first chunk whose bytes differ from Impl/WChunk: %s" % cmw["first"])
 
 
+def classify_history(h, res):
+    stage, text = res["problems"][0] if res["problems"] else ("crash", "")
+    st = h["steps"][res["at_step"] - 1] if res.get("at_step") else None
+    return {"stage": stage, "history": True, "after_failed_step": bool(res.get("after_failure")),
+            "step_failed_itself": bool(st and st.get("fail")), "via": st["via"] if st else "write",
+            "dpv": h["opts"]["dpv"], "file_scheme": "simple", "kinds": sorted(set(c["kind"] for c in h["spec"]["cols"])),
+            "why": re.sub(r"\d+", "#", text)[:160]}
+
+
+def run_histories(ctx, hists, hres):
+    nfiles = nfailed = 0
+    for h, res in zip(hists, hres):
+        case = {"history": h}
+        if "__crashed__" in res:
+            res = {"outcome": "fails", "problems": [("crash", "the process running the history died or hung: %s" % res["__crashed__"])],
+                   "at_step": None, "after_failure": False, "files": 0, "failed_steps": 0}
+        ctx.case(case, trivial=(res["outcome"] == "write-raised"))
+        ctx.count("history_outcome", res["outcome"])
+        ctx.count("history_steps", len(h["steps"]))
+        for st in h["steps"]:
+            ctx.count("history_step", "%s/%s" % (st["via"], (st["fail"] or {}).get("kind", "succeeds")))
+        if res["outcome"] == "harness-error":
+            ctx.broken.append({"kind": "harness-error", "name": "history", "detail": res["err"]})
+            continue
+        nfiles += res.get("files", 0)
+        nfailed += res.get("failed_steps", 0)
+        if res["outcome"] == "fails":
+            invalid = [p for p in res["problems"] if p[0] == "validate"]
+            known = not ctx.fail(classify_history(h, res), case, "after step %s of the history: %s" % (
+                res["at_step"], "; ".join("%s: %s" % tuple(p) for p in res["problems"])[:1400]))
+            if not known:
+                ctx.correspondence("valid_file (spec validator) accepts the file after every step of a history on one handle", case,
+                                   "Valid", "Valid" if not invalid else invalid[0][1])
+        elif res["outcome"] == "ok":
+            ctx.correspondence("valid_file (spec validator) accepts the file after every step of a history on one handle", case, "Valid", "Valid")
+    ctx.extra["history_file_states_validated"] = nfiles
+    ctx.extra["history_steps_that_raised"] = nfailed
+
+
 def replay(rep):
     warnings.filterwarnings("ignore")
-    if rep.get("kind") == "no-failing-input-found" or "spec" not in rep.get("case", {}):
+    if rep.get("kind") == "no-failing-input-found" or ("spec" not in rep.get("case", {}) and "history" not in rep.get("case", {})):
         print(json.dumps(rep, indent=1)[:6000])
         return 1
     _init()
+    if "history" in rep.get("case", {}):
+        res = _hist_job(rep["case"]["history"])
+        print("outcome:", res["outcome"], res.get("err") or "", "at step", res.get("at_step"))
+        for p in res["problems"]:
+            print("  %s: %s" % tuple(p))
+        return 1 if res["outcome"] in ("fails", "harness-error") else 0
     res = _job((rep["case"]["spec"], rep["case"]["opts"]))
     print("outcome:", res["outcome"], res.get("err") or "")
     for p in res["problems"]:
